@@ -165,12 +165,7 @@ theorem fold_7 (h l : Nat) :
     (Gen.Mds8.mds_multiply.s_result_7_1 (Gen.Mds8.mds_multiply.s_res_7 (Gen.Mds8.mds_multiply.s_s_lo_7 (Gen.Mds8.mds_multiply.s_s_15 h l)) (Gen.Mds8.mds_multiply.s_z_7 (Gen.Mds8.mds_multiply.s_s_hi_7 (Gen.Mds8.mds_multiply.s_s_15 h l)))) (Gen.Mds8.mds_multiply.s_over_7 (Gen.Mds8.mds_multiply.s_s_lo_7 (Gen.Mds8.mds_multiply.s_s_15 h l)) (Gen.Mds8.mds_multiply.s_z_7 (Gen.Mds8.mds_multiply.s_s_hi_7 (Gen.Mds8.mds_multiply.s_s_15 h l))))) = tailRed l h := rfl
 
 /-- the plumbing of `mds_multiply` (which `let` feeds which): every output component is the
-    reduction tail of the two frequency-domain products of the low and high 32-bit limbs.
-    NOT proved in Lean: every route tried (simp unfolding, `rfl`, fold-then-rewrite) makes the
-    kernel unfold arithmetic on 2^64 literals past the identity wrappers `s_state_k_1` the translator
-    emits ("deep recursion"). The individual steps are proved (`fold_k`: each generated tail chain is
-    `tailRed`; `freq_*`: both products); this remaining statement is tied to the code by the
-    correspondence harness (`perm` / `round` ops, raw words compared bit for bit). -/
+    reduction tail of the two frequency-domain products of the low and high 32-bit limbs -/
 def mm_eq_tail_statement : Prop :=
   ∀ (x0 x1 x2 x3 x4 x5 x6 x7 : Nat),
     Gen.Mds8.mds_multiply x0 x1 x2 x3 x4 x5 x6 x7 =
@@ -190,5 +185,731 @@ def mm_eq_tail_statement : Prop :=
          (Gen.Mds8.mds_multiply_freq (x0 / 4294967296) (x1 / 4294967296) (x2 / 4294967296) (x3 / 4294967296) (x4 / 4294967296) (x5 / 4294967296) (x6 / 4294967296) (x7 / 4294967296)).2.2.2.2.2.2.1,
        tailRed (Gen.Mds8.mds_multiply_freq (x0 % 4294967296) (x1 % 4294967296) (x2 % 4294967296) (x3 % 4294967296) (x4 % 4294967296) (x5 % 4294967296) (x6 % 4294967296) (x7 % 4294967296)).2.2.2.2.2.2.2
          (Gen.Mds8.mds_multiply_freq (x0 / 4294967296) (x1 / 4294967296) (x2 / 4294967296) (x3 / 4294967296) (x4 / 4294967296) (x5 / 4294967296) (x6 / 4294967296) (x7 / 4294967296)).2.2.2.2.2.2.2)
+
+/-! one equation per generated step, each carrying a proof term (see `gen_c11_mds.py`) -/
+section steps
+open Gen.Mds8
+
+theorem eq_mds_multiply_s_s (state_0 : Nat) :
+    Gen.Mds8.mds_multiply.s_s state_0 =
+      (state_0) := by
+  rw [Gen.Mds8.mds_multiply.s_s]
+
+theorem eq_mds_multiply_s_state_h_0_1 (s : Nat) :
+    Gen.Mds8.mds_multiply.s_state_h_0_1 s =
+      (s / 4294967296) := by
+  rw [Gen.Mds8.mds_multiply.s_state_h_0_1]
+
+theorem eq_mds_multiply_s_state_l_0_1 (s : Nat) :
+    Gen.Mds8.mds_multiply.s_state_l_0_1 s =
+      (s % 4294967296) := by
+  rw [Gen.Mds8.mds_multiply.s_state_l_0_1]
+
+theorem eq_mds_multiply_s_s_1 (state_1 : Nat) :
+    Gen.Mds8.mds_multiply.s_s_1 state_1 =
+      (state_1) := by
+  rw [Gen.Mds8.mds_multiply.s_s_1]
+
+theorem eq_mds_multiply_s_state_h_1_1 (s_1 : Nat) :
+    Gen.Mds8.mds_multiply.s_state_h_1_1 s_1 =
+      (s_1 / 4294967296) := by
+  rw [Gen.Mds8.mds_multiply.s_state_h_1_1]
+
+theorem eq_mds_multiply_s_state_l_1_1 (s_1 : Nat) :
+    Gen.Mds8.mds_multiply.s_state_l_1_1 s_1 =
+      (s_1 % 4294967296) := by
+  rw [Gen.Mds8.mds_multiply.s_state_l_1_1]
+
+theorem eq_mds_multiply_s_s_2 (state_2 : Nat) :
+    Gen.Mds8.mds_multiply.s_s_2 state_2 =
+      (state_2) := by
+  rw [Gen.Mds8.mds_multiply.s_s_2]
+
+theorem eq_mds_multiply_s_state_h_2_1 (s_2 : Nat) :
+    Gen.Mds8.mds_multiply.s_state_h_2_1 s_2 =
+      (s_2 / 4294967296) := by
+  rw [Gen.Mds8.mds_multiply.s_state_h_2_1]
+
+theorem eq_mds_multiply_s_state_l_2_1 (s_2 : Nat) :
+    Gen.Mds8.mds_multiply.s_state_l_2_1 s_2 =
+      (s_2 % 4294967296) := by
+  rw [Gen.Mds8.mds_multiply.s_state_l_2_1]
+
+theorem eq_mds_multiply_s_s_3 (state_3 : Nat) :
+    Gen.Mds8.mds_multiply.s_s_3 state_3 =
+      (state_3) := by
+  rw [Gen.Mds8.mds_multiply.s_s_3]
+
+theorem eq_mds_multiply_s_state_h_3_1 (s_3 : Nat) :
+    Gen.Mds8.mds_multiply.s_state_h_3_1 s_3 =
+      (s_3 / 4294967296) := by
+  rw [Gen.Mds8.mds_multiply.s_state_h_3_1]
+
+theorem eq_mds_multiply_s_state_l_3_1 (s_3 : Nat) :
+    Gen.Mds8.mds_multiply.s_state_l_3_1 s_3 =
+      (s_3 % 4294967296) := by
+  rw [Gen.Mds8.mds_multiply.s_state_l_3_1]
+
+theorem eq_mds_multiply_s_s_4 (state_4 : Nat) :
+    Gen.Mds8.mds_multiply.s_s_4 state_4 =
+      (state_4) := by
+  rw [Gen.Mds8.mds_multiply.s_s_4]
+
+theorem eq_mds_multiply_s_state_h_4_1 (s_4 : Nat) :
+    Gen.Mds8.mds_multiply.s_state_h_4_1 s_4 =
+      (s_4 / 4294967296) := by
+  rw [Gen.Mds8.mds_multiply.s_state_h_4_1]
+
+theorem eq_mds_multiply_s_state_l_4_1 (s_4 : Nat) :
+    Gen.Mds8.mds_multiply.s_state_l_4_1 s_4 =
+      (s_4 % 4294967296) := by
+  rw [Gen.Mds8.mds_multiply.s_state_l_4_1]
+
+theorem eq_mds_multiply_s_s_5 (state_5 : Nat) :
+    Gen.Mds8.mds_multiply.s_s_5 state_5 =
+      (state_5) := by
+  rw [Gen.Mds8.mds_multiply.s_s_5]
+
+theorem eq_mds_multiply_s_state_h_5_1 (s_5 : Nat) :
+    Gen.Mds8.mds_multiply.s_state_h_5_1 s_5 =
+      (s_5 / 4294967296) := by
+  rw [Gen.Mds8.mds_multiply.s_state_h_5_1]
+
+theorem eq_mds_multiply_s_state_l_5_1 (s_5 : Nat) :
+    Gen.Mds8.mds_multiply.s_state_l_5_1 s_5 =
+      (s_5 % 4294967296) := by
+  rw [Gen.Mds8.mds_multiply.s_state_l_5_1]
+
+theorem eq_mds_multiply_s_s_6 (state_6 : Nat) :
+    Gen.Mds8.mds_multiply.s_s_6 state_6 =
+      (state_6) := by
+  rw [Gen.Mds8.mds_multiply.s_s_6]
+
+theorem eq_mds_multiply_s_state_h_6_1 (s_6 : Nat) :
+    Gen.Mds8.mds_multiply.s_state_h_6_1 s_6 =
+      (s_6 / 4294967296) := by
+  rw [Gen.Mds8.mds_multiply.s_state_h_6_1]
+
+theorem eq_mds_multiply_s_state_l_6_1 (s_6 : Nat) :
+    Gen.Mds8.mds_multiply.s_state_l_6_1 s_6 =
+      (s_6 % 4294967296) := by
+  rw [Gen.Mds8.mds_multiply.s_state_l_6_1]
+
+theorem eq_mds_multiply_s_s_7 (state_7 : Nat) :
+    Gen.Mds8.mds_multiply.s_s_7 state_7 =
+      (state_7) := by
+  rw [Gen.Mds8.mds_multiply.s_s_7]
+
+theorem eq_mds_multiply_s_state_h_7_1 (s_7 : Nat) :
+    Gen.Mds8.mds_multiply.s_state_h_7_1 s_7 =
+      (s_7 / 4294967296) := by
+  rw [Gen.Mds8.mds_multiply.s_state_h_7_1]
+
+theorem eq_mds_multiply_s_state_l_7_1 (s_7 : Nat) :
+    Gen.Mds8.mds_multiply.s_state_l_7_1 s_7 =
+      (s_7 % 4294967296) := by
+  rw [Gen.Mds8.mds_multiply.s_state_l_7_1]
+
+theorem eq_mds_multiply_s_r (state_h_0_1 : Nat) (state_h_1_1 : Nat) (state_h_2_1 : Nat) (state_h_3_1 : Nat) (state_h_4_1 : Nat) (state_h_5_1 : Nat) (state_h_6_1 : Nat) (state_h_7_1 : Nat) :
+    Gen.Mds8.mds_multiply.s_r state_h_0_1 state_h_1_1 state_h_2_1 state_h_3_1 state_h_4_1 state_h_5_1 state_h_6_1 state_h_7_1 =
+      (mds_multiply_freq state_h_0_1 state_h_1_1 state_h_2_1 state_h_3_1 state_h_4_1 state_h_5_1 state_h_6_1 state_h_7_1) := by
+  rw [Gen.Mds8.mds_multiply.s_r]
+
+theorem eq_mds_multiply_s_state_h_0_2 (r : Nat × Nat × Nat × Nat × Nat × Nat × Nat × Nat) :
+    Gen.Mds8.mds_multiply.s_state_h_0_2 r =
+      (r.1) := by
+  rw [Gen.Mds8.mds_multiply.s_state_h_0_2]
+
+theorem eq_mds_multiply_s_state_h_1_2 (r : Nat × Nat × Nat × Nat × Nat × Nat × Nat × Nat) :
+    Gen.Mds8.mds_multiply.s_state_h_1_2 r =
+      (r.2.1) := by
+  rw [Gen.Mds8.mds_multiply.s_state_h_1_2]
+
+theorem eq_mds_multiply_s_state_h_2_2 (r : Nat × Nat × Nat × Nat × Nat × Nat × Nat × Nat) :
+    Gen.Mds8.mds_multiply.s_state_h_2_2 r =
+      (r.2.2.1) := by
+  rw [Gen.Mds8.mds_multiply.s_state_h_2_2]
+
+theorem eq_mds_multiply_s_state_h_3_2 (r : Nat × Nat × Nat × Nat × Nat × Nat × Nat × Nat) :
+    Gen.Mds8.mds_multiply.s_state_h_3_2 r =
+      (r.2.2.2.1) := by
+  rw [Gen.Mds8.mds_multiply.s_state_h_3_2]
+
+theorem eq_mds_multiply_s_state_h_4_2 (r : Nat × Nat × Nat × Nat × Nat × Nat × Nat × Nat) :
+    Gen.Mds8.mds_multiply.s_state_h_4_2 r =
+      (r.2.2.2.2.1) := by
+  rw [Gen.Mds8.mds_multiply.s_state_h_4_2]
+
+theorem eq_mds_multiply_s_state_h_5_2 (r : Nat × Nat × Nat × Nat × Nat × Nat × Nat × Nat) :
+    Gen.Mds8.mds_multiply.s_state_h_5_2 r =
+      (r.2.2.2.2.2.1) := by
+  rw [Gen.Mds8.mds_multiply.s_state_h_5_2]
+
+theorem eq_mds_multiply_s_state_h_6_2 (r : Nat × Nat × Nat × Nat × Nat × Nat × Nat × Nat) :
+    Gen.Mds8.mds_multiply.s_state_h_6_2 r =
+      (r.2.2.2.2.2.2.1) := by
+  rw [Gen.Mds8.mds_multiply.s_state_h_6_2]
+
+theorem eq_mds_multiply_s_state_h_7_2 (r : Nat × Nat × Nat × Nat × Nat × Nat × Nat × Nat) :
+    Gen.Mds8.mds_multiply.s_state_h_7_2 r =
+      (r.2.2.2.2.2.2.2) := by
+  rw [Gen.Mds8.mds_multiply.s_state_h_7_2]
+
+theorem eq_mds_multiply_s_r_1 (state_l_0_1 : Nat) (state_l_1_1 : Nat) (state_l_2_1 : Nat) (state_l_3_1 : Nat) (state_l_4_1 : Nat) (state_l_5_1 : Nat) (state_l_6_1 : Nat) (state_l_7_1 : Nat) :
+    Gen.Mds8.mds_multiply.s_r_1 state_l_0_1 state_l_1_1 state_l_2_1 state_l_3_1 state_l_4_1 state_l_5_1 state_l_6_1 state_l_7_1 =
+      (mds_multiply_freq state_l_0_1 state_l_1_1 state_l_2_1 state_l_3_1 state_l_4_1 state_l_5_1 state_l_6_1 state_l_7_1) := by
+  rw [Gen.Mds8.mds_multiply.s_r_1]
+
+theorem eq_mds_multiply_s_state_l_0_2 (r_1 : Nat × Nat × Nat × Nat × Nat × Nat × Nat × Nat) :
+    Gen.Mds8.mds_multiply.s_state_l_0_2 r_1 =
+      (r_1.1) := by
+  rw [Gen.Mds8.mds_multiply.s_state_l_0_2]
+
+theorem eq_mds_multiply_s_state_l_1_2 (r_1 : Nat × Nat × Nat × Nat × Nat × Nat × Nat × Nat) :
+    Gen.Mds8.mds_multiply.s_state_l_1_2 r_1 =
+      (r_1.2.1) := by
+  rw [Gen.Mds8.mds_multiply.s_state_l_1_2]
+
+theorem eq_mds_multiply_s_state_l_2_2 (r_1 : Nat × Nat × Nat × Nat × Nat × Nat × Nat × Nat) :
+    Gen.Mds8.mds_multiply.s_state_l_2_2 r_1 =
+      (r_1.2.2.1) := by
+  rw [Gen.Mds8.mds_multiply.s_state_l_2_2]
+
+theorem eq_mds_multiply_s_state_l_3_2 (r_1 : Nat × Nat × Nat × Nat × Nat × Nat × Nat × Nat) :
+    Gen.Mds8.mds_multiply.s_state_l_3_2 r_1 =
+      (r_1.2.2.2.1) := by
+  rw [Gen.Mds8.mds_multiply.s_state_l_3_2]
+
+theorem eq_mds_multiply_s_state_l_4_2 (r_1 : Nat × Nat × Nat × Nat × Nat × Nat × Nat × Nat) :
+    Gen.Mds8.mds_multiply.s_state_l_4_2 r_1 =
+      (r_1.2.2.2.2.1) := by
+  rw [Gen.Mds8.mds_multiply.s_state_l_4_2]
+
+theorem eq_mds_multiply_s_state_l_5_2 (r_1 : Nat × Nat × Nat × Nat × Nat × Nat × Nat × Nat) :
+    Gen.Mds8.mds_multiply.s_state_l_5_2 r_1 =
+      (r_1.2.2.2.2.2.1) := by
+  rw [Gen.Mds8.mds_multiply.s_state_l_5_2]
+
+theorem eq_mds_multiply_s_state_l_6_2 (r_1 : Nat × Nat × Nat × Nat × Nat × Nat × Nat × Nat) :
+    Gen.Mds8.mds_multiply.s_state_l_6_2 r_1 =
+      (r_1.2.2.2.2.2.2.1) := by
+  rw [Gen.Mds8.mds_multiply.s_state_l_6_2]
+
+theorem eq_mds_multiply_s_state_l_7_2 (r_1 : Nat × Nat × Nat × Nat × Nat × Nat × Nat × Nat) :
+    Gen.Mds8.mds_multiply.s_state_l_7_2 r_1 =
+      (r_1.2.2.2.2.2.2.2) := by
+  rw [Gen.Mds8.mds_multiply.s_state_l_7_2]
+
+theorem eq_mds_multiply_s_s_8 (state_h_0_2 : Nat) (state_l_0_2 : Nat) :
+    Gen.Mds8.mds_multiply.s_s_8 state_h_0_2 state_l_0_2 =
+      (state_l_0_2 + (state_h_0_2 * 4294967296 % 340282366920938463463374607431768211456)) := by
+  rw [Gen.Mds8.mds_multiply.s_s_8]
+
+theorem eq_mds_multiply_s_s_hi (s_8 : Nat) :
+    Gen.Mds8.mds_multiply.s_s_hi s_8 =
+      ((s_8 / 18446744073709551616) % 18446744073709551616) := by
+  rw [Gen.Mds8.mds_multiply.s_s_hi]
+
+theorem eq_mds_multiply_s_s_lo (s_8 : Nat) :
+    Gen.Mds8.mds_multiply.s_s_lo s_8 =
+      (s_8 % 18446744073709551616) := by
+  rw [Gen.Mds8.mds_multiply.s_s_lo]
+
+theorem eq_mds_multiply_s_z (s_hi : Nat) :
+    Gen.Mds8.mds_multiply.s_z s_hi =
+      ((s_hi * 4294967296 % 18446744073709551616) - s_hi) := by
+  rw [Gen.Mds8.mds_multiply.s_z]
+
+theorem eq_mds_multiply_s_res (s_lo : Nat) (z : Nat) :
+    Gen.Mds8.mds_multiply.s_res s_lo z =
+      ((s_lo + z) % 18446744073709551616) := by
+  rw [Gen.Mds8.mds_multiply.s_res]
+
+theorem eq_mds_multiply_s_over (s_lo : Nat) (z : Nat) :
+    Gen.Mds8.mds_multiply.s_over s_lo z =
+      (decide (18446744073709551616 ≤ s_lo + z)) := by
+  rw [Gen.Mds8.mds_multiply.s_over]
+
+theorem eq_mds_multiply_s_result_0_1 (res : Nat) (over : Bool) :
+    Gen.Mds8.mds_multiply.s_result_0_1 res over =
+      ((res + ((0 + 4294967296 - (if over = true then 1 else 0)) % 4294967296)) % 18446744073709551616) := by
+  rw [Gen.Mds8.mds_multiply.s_result_0_1]
+
+theorem eq_mds_multiply_s_s_9 (state_h_1_2 : Nat) (state_l_1_2 : Nat) :
+    Gen.Mds8.mds_multiply.s_s_9 state_h_1_2 state_l_1_2 =
+      (state_l_1_2 + (state_h_1_2 * 4294967296 % 340282366920938463463374607431768211456)) := by
+  rw [Gen.Mds8.mds_multiply.s_s_9]
+
+theorem eq_mds_multiply_s_s_hi_1 (s_9 : Nat) :
+    Gen.Mds8.mds_multiply.s_s_hi_1 s_9 =
+      ((s_9 / 18446744073709551616) % 18446744073709551616) := by
+  rw [Gen.Mds8.mds_multiply.s_s_hi_1]
+
+theorem eq_mds_multiply_s_s_lo_1 (s_9 : Nat) :
+    Gen.Mds8.mds_multiply.s_s_lo_1 s_9 =
+      (s_9 % 18446744073709551616) := by
+  rw [Gen.Mds8.mds_multiply.s_s_lo_1]
+
+theorem eq_mds_multiply_s_z_1 (s_hi_1 : Nat) :
+    Gen.Mds8.mds_multiply.s_z_1 s_hi_1 =
+      ((s_hi_1 * 4294967296 % 18446744073709551616) - s_hi_1) := by
+  rw [Gen.Mds8.mds_multiply.s_z_1]
+
+theorem eq_mds_multiply_s_res_1 (s_lo_1 : Nat) (z_1 : Nat) :
+    Gen.Mds8.mds_multiply.s_res_1 s_lo_1 z_1 =
+      ((s_lo_1 + z_1) % 18446744073709551616) := by
+  rw [Gen.Mds8.mds_multiply.s_res_1]
+
+theorem eq_mds_multiply_s_over_1 (s_lo_1 : Nat) (z_1 : Nat) :
+    Gen.Mds8.mds_multiply.s_over_1 s_lo_1 z_1 =
+      (decide (18446744073709551616 ≤ s_lo_1 + z_1)) := by
+  rw [Gen.Mds8.mds_multiply.s_over_1]
+
+theorem eq_mds_multiply_s_result_1_1 (res_1 : Nat) (over_1 : Bool) :
+    Gen.Mds8.mds_multiply.s_result_1_1 res_1 over_1 =
+      ((res_1 + ((0 + 4294967296 - (if over_1 = true then 1 else 0)) % 4294967296)) % 18446744073709551616) := by
+  rw [Gen.Mds8.mds_multiply.s_result_1_1]
+
+theorem eq_mds_multiply_s_s_10 (state_h_2_2 : Nat) (state_l_2_2 : Nat) :
+    Gen.Mds8.mds_multiply.s_s_10 state_h_2_2 state_l_2_2 =
+      (state_l_2_2 + (state_h_2_2 * 4294967296 % 340282366920938463463374607431768211456)) := by
+  rw [Gen.Mds8.mds_multiply.s_s_10]
+
+theorem eq_mds_multiply_s_s_hi_2 (s_10 : Nat) :
+    Gen.Mds8.mds_multiply.s_s_hi_2 s_10 =
+      ((s_10 / 18446744073709551616) % 18446744073709551616) := by
+  rw [Gen.Mds8.mds_multiply.s_s_hi_2]
+
+theorem eq_mds_multiply_s_s_lo_2 (s_10 : Nat) :
+    Gen.Mds8.mds_multiply.s_s_lo_2 s_10 =
+      (s_10 % 18446744073709551616) := by
+  rw [Gen.Mds8.mds_multiply.s_s_lo_2]
+
+theorem eq_mds_multiply_s_z_2 (s_hi_2 : Nat) :
+    Gen.Mds8.mds_multiply.s_z_2 s_hi_2 =
+      ((s_hi_2 * 4294967296 % 18446744073709551616) - s_hi_2) := by
+  rw [Gen.Mds8.mds_multiply.s_z_2]
+
+theorem eq_mds_multiply_s_res_2 (s_lo_2 : Nat) (z_2 : Nat) :
+    Gen.Mds8.mds_multiply.s_res_2 s_lo_2 z_2 =
+      ((s_lo_2 + z_2) % 18446744073709551616) := by
+  rw [Gen.Mds8.mds_multiply.s_res_2]
+
+theorem eq_mds_multiply_s_over_2 (s_lo_2 : Nat) (z_2 : Nat) :
+    Gen.Mds8.mds_multiply.s_over_2 s_lo_2 z_2 =
+      (decide (18446744073709551616 ≤ s_lo_2 + z_2)) := by
+  rw [Gen.Mds8.mds_multiply.s_over_2]
+
+theorem eq_mds_multiply_s_result_2_1 (res_2 : Nat) (over_2 : Bool) :
+    Gen.Mds8.mds_multiply.s_result_2_1 res_2 over_2 =
+      ((res_2 + ((0 + 4294967296 - (if over_2 = true then 1 else 0)) % 4294967296)) % 18446744073709551616) := by
+  rw [Gen.Mds8.mds_multiply.s_result_2_1]
+
+theorem eq_mds_multiply_s_s_11 (state_h_3_2 : Nat) (state_l_3_2 : Nat) :
+    Gen.Mds8.mds_multiply.s_s_11 state_h_3_2 state_l_3_2 =
+      (state_l_3_2 + (state_h_3_2 * 4294967296 % 340282366920938463463374607431768211456)) := by
+  rw [Gen.Mds8.mds_multiply.s_s_11]
+
+theorem eq_mds_multiply_s_s_hi_3 (s_11 : Nat) :
+    Gen.Mds8.mds_multiply.s_s_hi_3 s_11 =
+      ((s_11 / 18446744073709551616) % 18446744073709551616) := by
+  rw [Gen.Mds8.mds_multiply.s_s_hi_3]
+
+theorem eq_mds_multiply_s_s_lo_3 (s_11 : Nat) :
+    Gen.Mds8.mds_multiply.s_s_lo_3 s_11 =
+      (s_11 % 18446744073709551616) := by
+  rw [Gen.Mds8.mds_multiply.s_s_lo_3]
+
+theorem eq_mds_multiply_s_z_3 (s_hi_3 : Nat) :
+    Gen.Mds8.mds_multiply.s_z_3 s_hi_3 =
+      ((s_hi_3 * 4294967296 % 18446744073709551616) - s_hi_3) := by
+  rw [Gen.Mds8.mds_multiply.s_z_3]
+
+theorem eq_mds_multiply_s_res_3 (s_lo_3 : Nat) (z_3 : Nat) :
+    Gen.Mds8.mds_multiply.s_res_3 s_lo_3 z_3 =
+      ((s_lo_3 + z_3) % 18446744073709551616) := by
+  rw [Gen.Mds8.mds_multiply.s_res_3]
+
+theorem eq_mds_multiply_s_over_3 (s_lo_3 : Nat) (z_3 : Nat) :
+    Gen.Mds8.mds_multiply.s_over_3 s_lo_3 z_3 =
+      (decide (18446744073709551616 ≤ s_lo_3 + z_3)) := by
+  rw [Gen.Mds8.mds_multiply.s_over_3]
+
+theorem eq_mds_multiply_s_result_3_1 (res_3 : Nat) (over_3 : Bool) :
+    Gen.Mds8.mds_multiply.s_result_3_1 res_3 over_3 =
+      ((res_3 + ((0 + 4294967296 - (if over_3 = true then 1 else 0)) % 4294967296)) % 18446744073709551616) := by
+  rw [Gen.Mds8.mds_multiply.s_result_3_1]
+
+theorem eq_mds_multiply_s_s_12 (state_h_4_2 : Nat) (state_l_4_2 : Nat) :
+    Gen.Mds8.mds_multiply.s_s_12 state_h_4_2 state_l_4_2 =
+      (state_l_4_2 + (state_h_4_2 * 4294967296 % 340282366920938463463374607431768211456)) := by
+  rw [Gen.Mds8.mds_multiply.s_s_12]
+
+theorem eq_mds_multiply_s_s_hi_4 (s_12 : Nat) :
+    Gen.Mds8.mds_multiply.s_s_hi_4 s_12 =
+      ((s_12 / 18446744073709551616) % 18446744073709551616) := by
+  rw [Gen.Mds8.mds_multiply.s_s_hi_4]
+
+theorem eq_mds_multiply_s_s_lo_4 (s_12 : Nat) :
+    Gen.Mds8.mds_multiply.s_s_lo_4 s_12 =
+      (s_12 % 18446744073709551616) := by
+  rw [Gen.Mds8.mds_multiply.s_s_lo_4]
+
+theorem eq_mds_multiply_s_z_4 (s_hi_4 : Nat) :
+    Gen.Mds8.mds_multiply.s_z_4 s_hi_4 =
+      ((s_hi_4 * 4294967296 % 18446744073709551616) - s_hi_4) := by
+  rw [Gen.Mds8.mds_multiply.s_z_4]
+
+theorem eq_mds_multiply_s_res_4 (s_lo_4 : Nat) (z_4 : Nat) :
+    Gen.Mds8.mds_multiply.s_res_4 s_lo_4 z_4 =
+      ((s_lo_4 + z_4) % 18446744073709551616) := by
+  rw [Gen.Mds8.mds_multiply.s_res_4]
+
+theorem eq_mds_multiply_s_over_4 (s_lo_4 : Nat) (z_4 : Nat) :
+    Gen.Mds8.mds_multiply.s_over_4 s_lo_4 z_4 =
+      (decide (18446744073709551616 ≤ s_lo_4 + z_4)) := by
+  rw [Gen.Mds8.mds_multiply.s_over_4]
+
+theorem eq_mds_multiply_s_result_4_1 (res_4 : Nat) (over_4 : Bool) :
+    Gen.Mds8.mds_multiply.s_result_4_1 res_4 over_4 =
+      ((res_4 + ((0 + 4294967296 - (if over_4 = true then 1 else 0)) % 4294967296)) % 18446744073709551616) := by
+  rw [Gen.Mds8.mds_multiply.s_result_4_1]
+
+theorem eq_mds_multiply_s_s_13 (state_h_5_2 : Nat) (state_l_5_2 : Nat) :
+    Gen.Mds8.mds_multiply.s_s_13 state_h_5_2 state_l_5_2 =
+      (state_l_5_2 + (state_h_5_2 * 4294967296 % 340282366920938463463374607431768211456)) := by
+  rw [Gen.Mds8.mds_multiply.s_s_13]
+
+theorem eq_mds_multiply_s_s_hi_5 (s_13 : Nat) :
+    Gen.Mds8.mds_multiply.s_s_hi_5 s_13 =
+      ((s_13 / 18446744073709551616) % 18446744073709551616) := by
+  rw [Gen.Mds8.mds_multiply.s_s_hi_5]
+
+theorem eq_mds_multiply_s_s_lo_5 (s_13 : Nat) :
+    Gen.Mds8.mds_multiply.s_s_lo_5 s_13 =
+      (s_13 % 18446744073709551616) := by
+  rw [Gen.Mds8.mds_multiply.s_s_lo_5]
+
+theorem eq_mds_multiply_s_z_5 (s_hi_5 : Nat) :
+    Gen.Mds8.mds_multiply.s_z_5 s_hi_5 =
+      ((s_hi_5 * 4294967296 % 18446744073709551616) - s_hi_5) := by
+  rw [Gen.Mds8.mds_multiply.s_z_5]
+
+theorem eq_mds_multiply_s_res_5 (s_lo_5 : Nat) (z_5 : Nat) :
+    Gen.Mds8.mds_multiply.s_res_5 s_lo_5 z_5 =
+      ((s_lo_5 + z_5) % 18446744073709551616) := by
+  rw [Gen.Mds8.mds_multiply.s_res_5]
+
+theorem eq_mds_multiply_s_over_5 (s_lo_5 : Nat) (z_5 : Nat) :
+    Gen.Mds8.mds_multiply.s_over_5 s_lo_5 z_5 =
+      (decide (18446744073709551616 ≤ s_lo_5 + z_5)) := by
+  rw [Gen.Mds8.mds_multiply.s_over_5]
+
+theorem eq_mds_multiply_s_result_5_1 (res_5 : Nat) (over_5 : Bool) :
+    Gen.Mds8.mds_multiply.s_result_5_1 res_5 over_5 =
+      ((res_5 + ((0 + 4294967296 - (if over_5 = true then 1 else 0)) % 4294967296)) % 18446744073709551616) := by
+  rw [Gen.Mds8.mds_multiply.s_result_5_1]
+
+theorem eq_mds_multiply_s_s_14 (state_h_6_2 : Nat) (state_l_6_2 : Nat) :
+    Gen.Mds8.mds_multiply.s_s_14 state_h_6_2 state_l_6_2 =
+      (state_l_6_2 + (state_h_6_2 * 4294967296 % 340282366920938463463374607431768211456)) := by
+  rw [Gen.Mds8.mds_multiply.s_s_14]
+
+theorem eq_mds_multiply_s_s_hi_6 (s_14 : Nat) :
+    Gen.Mds8.mds_multiply.s_s_hi_6 s_14 =
+      ((s_14 / 18446744073709551616) % 18446744073709551616) := by
+  rw [Gen.Mds8.mds_multiply.s_s_hi_6]
+
+theorem eq_mds_multiply_s_s_lo_6 (s_14 : Nat) :
+    Gen.Mds8.mds_multiply.s_s_lo_6 s_14 =
+      (s_14 % 18446744073709551616) := by
+  rw [Gen.Mds8.mds_multiply.s_s_lo_6]
+
+theorem eq_mds_multiply_s_z_6 (s_hi_6 : Nat) :
+    Gen.Mds8.mds_multiply.s_z_6 s_hi_6 =
+      ((s_hi_6 * 4294967296 % 18446744073709551616) - s_hi_6) := by
+  rw [Gen.Mds8.mds_multiply.s_z_6]
+
+theorem eq_mds_multiply_s_res_6 (s_lo_6 : Nat) (z_6 : Nat) :
+    Gen.Mds8.mds_multiply.s_res_6 s_lo_6 z_6 =
+      ((s_lo_6 + z_6) % 18446744073709551616) := by
+  rw [Gen.Mds8.mds_multiply.s_res_6]
+
+theorem eq_mds_multiply_s_over_6 (s_lo_6 : Nat) (z_6 : Nat) :
+    Gen.Mds8.mds_multiply.s_over_6 s_lo_6 z_6 =
+      (decide (18446744073709551616 ≤ s_lo_6 + z_6)) := by
+  rw [Gen.Mds8.mds_multiply.s_over_6]
+
+theorem eq_mds_multiply_s_result_6_1 (res_6 : Nat) (over_6 : Bool) :
+    Gen.Mds8.mds_multiply.s_result_6_1 res_6 over_6 =
+      ((res_6 + ((0 + 4294967296 - (if over_6 = true then 1 else 0)) % 4294967296)) % 18446744073709551616) := by
+  rw [Gen.Mds8.mds_multiply.s_result_6_1]
+
+theorem eq_mds_multiply_s_s_15 (state_h_7_2 : Nat) (state_l_7_2 : Nat) :
+    Gen.Mds8.mds_multiply.s_s_15 state_h_7_2 state_l_7_2 =
+      (state_l_7_2 + (state_h_7_2 * 4294967296 % 340282366920938463463374607431768211456)) := by
+  rw [Gen.Mds8.mds_multiply.s_s_15]
+
+theorem eq_mds_multiply_s_s_hi_7 (s_15 : Nat) :
+    Gen.Mds8.mds_multiply.s_s_hi_7 s_15 =
+      ((s_15 / 18446744073709551616) % 18446744073709551616) := by
+  rw [Gen.Mds8.mds_multiply.s_s_hi_7]
+
+theorem eq_mds_multiply_s_s_lo_7 (s_15 : Nat) :
+    Gen.Mds8.mds_multiply.s_s_lo_7 s_15 =
+      (s_15 % 18446744073709551616) := by
+  rw [Gen.Mds8.mds_multiply.s_s_lo_7]
+
+theorem eq_mds_multiply_s_z_7 (s_hi_7 : Nat) :
+    Gen.Mds8.mds_multiply.s_z_7 s_hi_7 =
+      ((s_hi_7 * 4294967296 % 18446744073709551616) - s_hi_7) := by
+  rw [Gen.Mds8.mds_multiply.s_z_7]
+
+theorem eq_mds_multiply_s_res_7 (s_lo_7 : Nat) (z_7 : Nat) :
+    Gen.Mds8.mds_multiply.s_res_7 s_lo_7 z_7 =
+      ((s_lo_7 + z_7) % 18446744073709551616) := by
+  rw [Gen.Mds8.mds_multiply.s_res_7]
+
+theorem eq_mds_multiply_s_over_7 (s_lo_7 : Nat) (z_7 : Nat) :
+    Gen.Mds8.mds_multiply.s_over_7 s_lo_7 z_7 =
+      (decide (18446744073709551616 ≤ s_lo_7 + z_7)) := by
+  rw [Gen.Mds8.mds_multiply.s_over_7]
+
+theorem eq_mds_multiply_s_result_7_1 (res_7 : Nat) (over_7 : Bool) :
+    Gen.Mds8.mds_multiply.s_result_7_1 res_7 over_7 =
+      ((res_7 + ((0 + 4294967296 - (if over_7 = true then 1 else 0)) % 4294967296)) % 18446744073709551616) := by
+  rw [Gen.Mds8.mds_multiply.s_result_7_1]
+
+theorem eq_mds_multiply_s_state_0_1 (result_0_1 : Nat) :
+    Gen.Mds8.mds_multiply.s_state_0_1 result_0_1 =
+      (result_0_1) := by
+  rw [Gen.Mds8.mds_multiply.s_state_0_1]
+
+theorem eq_mds_multiply_s_state_1_1 (result_1_1 : Nat) :
+    Gen.Mds8.mds_multiply.s_state_1_1 result_1_1 =
+      (result_1_1) := by
+  rw [Gen.Mds8.mds_multiply.s_state_1_1]
+
+theorem eq_mds_multiply_s_state_2_1 (result_2_1 : Nat) :
+    Gen.Mds8.mds_multiply.s_state_2_1 result_2_1 =
+      (result_2_1) := by
+  rw [Gen.Mds8.mds_multiply.s_state_2_1]
+
+theorem eq_mds_multiply_s_state_3_1 (result_3_1 : Nat) :
+    Gen.Mds8.mds_multiply.s_state_3_1 result_3_1 =
+      (result_3_1) := by
+  rw [Gen.Mds8.mds_multiply.s_state_3_1]
+
+theorem eq_mds_multiply_s_state_4_1 (result_4_1 : Nat) :
+    Gen.Mds8.mds_multiply.s_state_4_1 result_4_1 =
+      (result_4_1) := by
+  rw [Gen.Mds8.mds_multiply.s_state_4_1]
+
+theorem eq_mds_multiply_s_state_5_1 (result_5_1 : Nat) :
+    Gen.Mds8.mds_multiply.s_state_5_1 result_5_1 =
+      (result_5_1) := by
+  rw [Gen.Mds8.mds_multiply.s_state_5_1]
+
+theorem eq_mds_multiply_s_state_6_1 (result_6_1 : Nat) :
+    Gen.Mds8.mds_multiply.s_state_6_1 result_6_1 =
+      (result_6_1) := by
+  rw [Gen.Mds8.mds_multiply.s_state_6_1]
+
+theorem eq_mds_multiply_s_state_7_1 (result_7_1 : Nat) :
+    Gen.Mds8.mds_multiply.s_state_7_1 result_7_1 =
+      (result_7_1) := by
+  rw [Gen.Mds8.mds_multiply.s_state_7_1]
+
+theorem eq_mds_multiply (state_0 : Nat) (state_1 : Nat) (state_2 : Nat) (state_3 : Nat) (state_4 : Nat) (state_5 : Nat) (state_6 : Nat) (state_7 : Nat) :
+    Gen.Mds8.mds_multiply state_0 state_1 state_2 state_3 state_4 state_5 state_6 state_7 =
+      (let result_0 := mds_multiply.s_result_0 
+  let result_1 := mds_multiply.s_result_1 
+  let result_2 := mds_multiply.s_result_2 
+  let result_3 := mds_multiply.s_result_3 
+  let result_4 := mds_multiply.s_result_4 
+  let result_5 := mds_multiply.s_result_5 
+  let result_6 := mds_multiply.s_result_6 
+  let result_7 := mds_multiply.s_result_7 
+  let state_l_0 := mds_multiply.s_state_l_0 
+  let state_l_1 := mds_multiply.s_state_l_1 
+  let state_l_2 := mds_multiply.s_state_l_2 
+  let state_l_3 := mds_multiply.s_state_l_3 
+  let state_l_4 := mds_multiply.s_state_l_4 
+  let state_l_5 := mds_multiply.s_state_l_5 
+  let state_l_6 := mds_multiply.s_state_l_6 
+  let state_l_7 := mds_multiply.s_state_l_7 
+  let state_h_0 := mds_multiply.s_state_h_0 
+  let state_h_1 := mds_multiply.s_state_h_1 
+  let state_h_2 := mds_multiply.s_state_h_2 
+  let state_h_3 := mds_multiply.s_state_h_3 
+  let state_h_4 := mds_multiply.s_state_h_4 
+  let state_h_5 := mds_multiply.s_state_h_5 
+  let state_h_6 := mds_multiply.s_state_h_6 
+  let state_h_7 := mds_multiply.s_state_h_7 
+  let s := mds_multiply.s_s state_0
+  let state_h_0_1 := mds_multiply.s_state_h_0_1 s
+  let state_l_0_1 := mds_multiply.s_state_l_0_1 s
+  let s_1 := mds_multiply.s_s_1 state_1
+  let state_h_1_1 := mds_multiply.s_state_h_1_1 s_1
+  let state_l_1_1 := mds_multiply.s_state_l_1_1 s_1
+  let s_2 := mds_multiply.s_s_2 state_2
+  let state_h_2_1 := mds_multiply.s_state_h_2_1 s_2
+  let state_l_2_1 := mds_multiply.s_state_l_2_1 s_2
+  let s_3 := mds_multiply.s_s_3 state_3
+  let state_h_3_1 := mds_multiply.s_state_h_3_1 s_3
+  let state_l_3_1 := mds_multiply.s_state_l_3_1 s_3
+  let s_4 := mds_multiply.s_s_4 state_4
+  let state_h_4_1 := mds_multiply.s_state_h_4_1 s_4
+  let state_l_4_1 := mds_multiply.s_state_l_4_1 s_4
+  let s_5 := mds_multiply.s_s_5 state_5
+  let state_h_5_1 := mds_multiply.s_state_h_5_1 s_5
+  let state_l_5_1 := mds_multiply.s_state_l_5_1 s_5
+  let s_6 := mds_multiply.s_s_6 state_6
+  let state_h_6_1 := mds_multiply.s_state_h_6_1 s_6
+  let state_l_6_1 := mds_multiply.s_state_l_6_1 s_6
+  let s_7 := mds_multiply.s_s_7 state_7
+  let state_h_7_1 := mds_multiply.s_state_h_7_1 s_7
+  let state_l_7_1 := mds_multiply.s_state_l_7_1 s_7
+  let r := mds_multiply.s_r state_h_0_1 state_h_1_1 state_h_2_1 state_h_3_1 state_h_4_1 state_h_5_1 state_h_6_1 state_h_7_1
+  let state_h_0_2 := mds_multiply.s_state_h_0_2 r
+  let state_h_1_2 := mds_multiply.s_state_h_1_2 r
+  let state_h_2_2 := mds_multiply.s_state_h_2_2 r
+  let state_h_3_2 := mds_multiply.s_state_h_3_2 r
+  let state_h_4_2 := mds_multiply.s_state_h_4_2 r
+  let state_h_5_2 := mds_multiply.s_state_h_5_2 r
+  let state_h_6_2 := mds_multiply.s_state_h_6_2 r
+  let state_h_7_2 := mds_multiply.s_state_h_7_2 r
+  let r_1 := mds_multiply.s_r_1 state_l_0_1 state_l_1_1 state_l_2_1 state_l_3_1 state_l_4_1 state_l_5_1 state_l_6_1 state_l_7_1
+  let state_l_0_2 := mds_multiply.s_state_l_0_2 r_1
+  let state_l_1_2 := mds_multiply.s_state_l_1_2 r_1
+  let state_l_2_2 := mds_multiply.s_state_l_2_2 r_1
+  let state_l_3_2 := mds_multiply.s_state_l_3_2 r_1
+  let state_l_4_2 := mds_multiply.s_state_l_4_2 r_1
+  let state_l_5_2 := mds_multiply.s_state_l_5_2 r_1
+  let state_l_6_2 := mds_multiply.s_state_l_6_2 r_1
+  let state_l_7_2 := mds_multiply.s_state_l_7_2 r_1
+  let s_8 := mds_multiply.s_s_8 state_h_0_2 state_l_0_2
+  let s_hi := mds_multiply.s_s_hi s_8
+  let s_lo := mds_multiply.s_s_lo s_8
+  let z := mds_multiply.s_z s_hi
+  let res := mds_multiply.s_res s_lo z
+  let over := mds_multiply.s_over s_lo z
+  let result_0_1 := mds_multiply.s_result_0_1 res over
+  let s_9 := mds_multiply.s_s_9 state_h_1_2 state_l_1_2
+  let s_hi_1 := mds_multiply.s_s_hi_1 s_9
+  let s_lo_1 := mds_multiply.s_s_lo_1 s_9
+  let z_1 := mds_multiply.s_z_1 s_hi_1
+  let res_1 := mds_multiply.s_res_1 s_lo_1 z_1
+  let over_1 := mds_multiply.s_over_1 s_lo_1 z_1
+  let result_1_1 := mds_multiply.s_result_1_1 res_1 over_1
+  let s_10 := mds_multiply.s_s_10 state_h_2_2 state_l_2_2
+  let s_hi_2 := mds_multiply.s_s_hi_2 s_10
+  let s_lo_2 := mds_multiply.s_s_lo_2 s_10
+  let z_2 := mds_multiply.s_z_2 s_hi_2
+  let res_2 := mds_multiply.s_res_2 s_lo_2 z_2
+  let over_2 := mds_multiply.s_over_2 s_lo_2 z_2
+  let result_2_1 := mds_multiply.s_result_2_1 res_2 over_2
+  let s_11 := mds_multiply.s_s_11 state_h_3_2 state_l_3_2
+  let s_hi_3 := mds_multiply.s_s_hi_3 s_11
+  let s_lo_3 := mds_multiply.s_s_lo_3 s_11
+  let z_3 := mds_multiply.s_z_3 s_hi_3
+  let res_3 := mds_multiply.s_res_3 s_lo_3 z_3
+  let over_3 := mds_multiply.s_over_3 s_lo_3 z_3
+  let result_3_1 := mds_multiply.s_result_3_1 res_3 over_3
+  let s_12 := mds_multiply.s_s_12 state_h_4_2 state_l_4_2
+  let s_hi_4 := mds_multiply.s_s_hi_4 s_12
+  let s_lo_4 := mds_multiply.s_s_lo_4 s_12
+  let z_4 := mds_multiply.s_z_4 s_hi_4
+  let res_4 := mds_multiply.s_res_4 s_lo_4 z_4
+  let over_4 := mds_multiply.s_over_4 s_lo_4 z_4
+  let result_4_1 := mds_multiply.s_result_4_1 res_4 over_4
+  let s_13 := mds_multiply.s_s_13 state_h_5_2 state_l_5_2
+  let s_hi_5 := mds_multiply.s_s_hi_5 s_13
+  let s_lo_5 := mds_multiply.s_s_lo_5 s_13
+  let z_5 := mds_multiply.s_z_5 s_hi_5
+  let res_5 := mds_multiply.s_res_5 s_lo_5 z_5
+  let over_5 := mds_multiply.s_over_5 s_lo_5 z_5
+  let result_5_1 := mds_multiply.s_result_5_1 res_5 over_5
+  let s_14 := mds_multiply.s_s_14 state_h_6_2 state_l_6_2
+  let s_hi_6 := mds_multiply.s_s_hi_6 s_14
+  let s_lo_6 := mds_multiply.s_s_lo_6 s_14
+  let z_6 := mds_multiply.s_z_6 s_hi_6
+  let res_6 := mds_multiply.s_res_6 s_lo_6 z_6
+  let over_6 := mds_multiply.s_over_6 s_lo_6 z_6
+  let result_6_1 := mds_multiply.s_result_6_1 res_6 over_6
+  let s_15 := mds_multiply.s_s_15 state_h_7_2 state_l_7_2
+  let s_hi_7 := mds_multiply.s_s_hi_7 s_15
+  let s_lo_7 := mds_multiply.s_s_lo_7 s_15
+  let z_7 := mds_multiply.s_z_7 s_hi_7
+  let res_7 := mds_multiply.s_res_7 s_lo_7 z_7
+  let over_7 := mds_multiply.s_over_7 s_lo_7 z_7
+  let result_7_1 := mds_multiply.s_result_7_1 res_7 over_7
+  let state_0_1 := mds_multiply.s_state_0_1 result_0_1
+  let state_1_1 := mds_multiply.s_state_1_1 result_1_1
+  let state_2_1 := mds_multiply.s_state_2_1 result_2_1
+  let state_3_1 := mds_multiply.s_state_3_1 result_3_1
+  let state_4_1 := mds_multiply.s_state_4_1 result_4_1
+  let state_5_1 := mds_multiply.s_state_5_1 result_5_1
+  let state_6_1 := mds_multiply.s_state_6_1 result_6_1
+  let state_7_1 := mds_multiply.s_state_7_1 result_7_1
+  (state_0_1, state_1_1, state_2_1, state_3_1, state_4_1, state_5_1, state_6_1, state_7_1)) := by
+  rw [Gen.Mds8.mds_multiply]
+
+end steps
+
+theorem fold_0' (h l : Nat) :
+    (Gen.Mds8.mds_multiply.s_result_0_1 (Gen.Mds8.mds_multiply.s_res (Gen.Mds8.mds_multiply.s_s_lo (Gen.Mds8.mds_multiply.s_s_8 h l)) (Gen.Mds8.mds_multiply.s_z (Gen.Mds8.mds_multiply.s_s_hi (Gen.Mds8.mds_multiply.s_s_8 h l)))) (Gen.Mds8.mds_multiply.s_over (Gen.Mds8.mds_multiply.s_s_lo (Gen.Mds8.mds_multiply.s_s_8 h l)) (Gen.Mds8.mds_multiply.s_z (Gen.Mds8.mds_multiply.s_s_hi (Gen.Mds8.mds_multiply.s_s_8 h l))))) = tailRed l h := by
+  rw [fold_0]
+
+theorem fold_1' (h l : Nat) :
+    (Gen.Mds8.mds_multiply.s_result_1_1 (Gen.Mds8.mds_multiply.s_res_1 (Gen.Mds8.mds_multiply.s_s_lo_1 (Gen.Mds8.mds_multiply.s_s_9 h l)) (Gen.Mds8.mds_multiply.s_z_1 (Gen.Mds8.mds_multiply.s_s_hi_1 (Gen.Mds8.mds_multiply.s_s_9 h l)))) (Gen.Mds8.mds_multiply.s_over_1 (Gen.Mds8.mds_multiply.s_s_lo_1 (Gen.Mds8.mds_multiply.s_s_9 h l)) (Gen.Mds8.mds_multiply.s_z_1 (Gen.Mds8.mds_multiply.s_s_hi_1 (Gen.Mds8.mds_multiply.s_s_9 h l))))) = tailRed l h := by
+  rw [fold_1]
+
+theorem fold_2' (h l : Nat) :
+    (Gen.Mds8.mds_multiply.s_result_2_1 (Gen.Mds8.mds_multiply.s_res_2 (Gen.Mds8.mds_multiply.s_s_lo_2 (Gen.Mds8.mds_multiply.s_s_10 h l)) (Gen.Mds8.mds_multiply.s_z_2 (Gen.Mds8.mds_multiply.s_s_hi_2 (Gen.Mds8.mds_multiply.s_s_10 h l)))) (Gen.Mds8.mds_multiply.s_over_2 (Gen.Mds8.mds_multiply.s_s_lo_2 (Gen.Mds8.mds_multiply.s_s_10 h l)) (Gen.Mds8.mds_multiply.s_z_2 (Gen.Mds8.mds_multiply.s_s_hi_2 (Gen.Mds8.mds_multiply.s_s_10 h l))))) = tailRed l h := by
+  rw [fold_2]
+
+theorem fold_3' (h l : Nat) :
+    (Gen.Mds8.mds_multiply.s_result_3_1 (Gen.Mds8.mds_multiply.s_res_3 (Gen.Mds8.mds_multiply.s_s_lo_3 (Gen.Mds8.mds_multiply.s_s_11 h l)) (Gen.Mds8.mds_multiply.s_z_3 (Gen.Mds8.mds_multiply.s_s_hi_3 (Gen.Mds8.mds_multiply.s_s_11 h l)))) (Gen.Mds8.mds_multiply.s_over_3 (Gen.Mds8.mds_multiply.s_s_lo_3 (Gen.Mds8.mds_multiply.s_s_11 h l)) (Gen.Mds8.mds_multiply.s_z_3 (Gen.Mds8.mds_multiply.s_s_hi_3 (Gen.Mds8.mds_multiply.s_s_11 h l))))) = tailRed l h := by
+  rw [fold_3]
+
+theorem fold_4' (h l : Nat) :
+    (Gen.Mds8.mds_multiply.s_result_4_1 (Gen.Mds8.mds_multiply.s_res_4 (Gen.Mds8.mds_multiply.s_s_lo_4 (Gen.Mds8.mds_multiply.s_s_12 h l)) (Gen.Mds8.mds_multiply.s_z_4 (Gen.Mds8.mds_multiply.s_s_hi_4 (Gen.Mds8.mds_multiply.s_s_12 h l)))) (Gen.Mds8.mds_multiply.s_over_4 (Gen.Mds8.mds_multiply.s_s_lo_4 (Gen.Mds8.mds_multiply.s_s_12 h l)) (Gen.Mds8.mds_multiply.s_z_4 (Gen.Mds8.mds_multiply.s_s_hi_4 (Gen.Mds8.mds_multiply.s_s_12 h l))))) = tailRed l h := by
+  rw [fold_4]
+
+theorem fold_5' (h l : Nat) :
+    (Gen.Mds8.mds_multiply.s_result_5_1 (Gen.Mds8.mds_multiply.s_res_5 (Gen.Mds8.mds_multiply.s_s_lo_5 (Gen.Mds8.mds_multiply.s_s_13 h l)) (Gen.Mds8.mds_multiply.s_z_5 (Gen.Mds8.mds_multiply.s_s_hi_5 (Gen.Mds8.mds_multiply.s_s_13 h l)))) (Gen.Mds8.mds_multiply.s_over_5 (Gen.Mds8.mds_multiply.s_s_lo_5 (Gen.Mds8.mds_multiply.s_s_13 h l)) (Gen.Mds8.mds_multiply.s_z_5 (Gen.Mds8.mds_multiply.s_s_hi_5 (Gen.Mds8.mds_multiply.s_s_13 h l))))) = tailRed l h := by
+  rw [fold_5]
+
+theorem fold_6' (h l : Nat) :
+    (Gen.Mds8.mds_multiply.s_result_6_1 (Gen.Mds8.mds_multiply.s_res_6 (Gen.Mds8.mds_multiply.s_s_lo_6 (Gen.Mds8.mds_multiply.s_s_14 h l)) (Gen.Mds8.mds_multiply.s_z_6 (Gen.Mds8.mds_multiply.s_s_hi_6 (Gen.Mds8.mds_multiply.s_s_14 h l)))) (Gen.Mds8.mds_multiply.s_over_6 (Gen.Mds8.mds_multiply.s_s_lo_6 (Gen.Mds8.mds_multiply.s_s_14 h l)) (Gen.Mds8.mds_multiply.s_z_6 (Gen.Mds8.mds_multiply.s_s_hi_6 (Gen.Mds8.mds_multiply.s_s_14 h l))))) = tailRed l h := by
+  rw [fold_6]
+
+theorem fold_7' (h l : Nat) :
+    (Gen.Mds8.mds_multiply.s_result_7_1 (Gen.Mds8.mds_multiply.s_res_7 (Gen.Mds8.mds_multiply.s_s_lo_7 (Gen.Mds8.mds_multiply.s_s_15 h l)) (Gen.Mds8.mds_multiply.s_z_7 (Gen.Mds8.mds_multiply.s_s_hi_7 (Gen.Mds8.mds_multiply.s_s_15 h l)))) (Gen.Mds8.mds_multiply.s_over_7 (Gen.Mds8.mds_multiply.s_s_lo_7 (Gen.Mds8.mds_multiply.s_s_15 h l)) (Gen.Mds8.mds_multiply.s_z_7 (Gen.Mds8.mds_multiply.s_s_hi_7 (Gen.Mds8.mds_multiply.s_s_15 h l))))) = tailRed l h := by
+  rw [fold_7]
+
+/-- proved by rewriting with the step equations only: no definitional unfolding, so the kernel never
+    has to re-check a computation on 2^64 literals -/
+theorem mm_eq_tail : mm_eq_tail_statement := by
+  intro x0 x1 x2 x3 x4 x5 x6 x7
+  simp only [eq_mds_multiply_s_s, eq_mds_multiply_s_state_h_0_1, eq_mds_multiply_s_state_l_0_1,
+      eq_mds_multiply_s_s_1, eq_mds_multiply_s_state_h_1_1, eq_mds_multiply_s_state_l_1_1,
+      eq_mds_multiply_s_s_2, eq_mds_multiply_s_state_h_2_1, eq_mds_multiply_s_state_l_2_1,
+      eq_mds_multiply_s_s_3, eq_mds_multiply_s_state_h_3_1, eq_mds_multiply_s_state_l_3_1,
+      eq_mds_multiply_s_s_4, eq_mds_multiply_s_state_h_4_1, eq_mds_multiply_s_state_l_4_1,
+      eq_mds_multiply_s_s_5, eq_mds_multiply_s_state_h_5_1, eq_mds_multiply_s_state_l_5_1,
+      eq_mds_multiply_s_s_6, eq_mds_multiply_s_state_h_6_1, eq_mds_multiply_s_state_l_6_1,
+      eq_mds_multiply_s_s_7, eq_mds_multiply_s_state_h_7_1, eq_mds_multiply_s_state_l_7_1,
+      eq_mds_multiply_s_r, eq_mds_multiply_s_state_h_0_2, eq_mds_multiply_s_state_h_1_2,
+      eq_mds_multiply_s_state_h_2_2, eq_mds_multiply_s_state_h_3_2, eq_mds_multiply_s_state_h_4_2,
+      eq_mds_multiply_s_state_h_5_2, eq_mds_multiply_s_state_h_6_2, eq_mds_multiply_s_state_h_7_2,
+      eq_mds_multiply_s_r_1, eq_mds_multiply_s_state_l_0_2, eq_mds_multiply_s_state_l_1_2,
+      eq_mds_multiply_s_state_l_2_2, eq_mds_multiply_s_state_l_3_2, eq_mds_multiply_s_state_l_4_2,
+      eq_mds_multiply_s_state_l_5_2, eq_mds_multiply_s_state_l_6_2, eq_mds_multiply_s_state_l_7_2,
+      eq_mds_multiply_s_state_0_1, eq_mds_multiply_s_state_1_1, eq_mds_multiply_s_state_2_1,
+      eq_mds_multiply_s_state_3_1, eq_mds_multiply_s_state_4_1, eq_mds_multiply_s_state_5_1,
+      eq_mds_multiply_s_state_6_1, eq_mds_multiply_s_state_7_1, eq_mds_multiply,
+      fold_0', fold_1', fold_2', fold_3', fold_4', fold_5', fold_6', fold_7']
 
 end WinterProofs.C11.Mds8
